@@ -33,6 +33,27 @@
 //! is used as an ordinary pseudo-column. The engine documents that `file_row_index()` errors when it
 //! is not pushed into a scan ("source dependent and cannot be evaluated directly") — such cases are
 //! discards. NaN and -0.0 are not generated (DESIGN §7.1).
+//!
+//! Sensitivity probes (one env-gated multi-mutation patch applied with tools/mutrun, each mutation
+//! switched on separately with VF_MUT; all caught by `c24 quick`, seed 0):
+//! * `reorder_drops_conjunct` — row_filter.rs `build_row_filter`: after `reorder_filters` sorting the last
+//!   candidate conjunct is dropped -> VIOLATION after 5 cases (unexpected rows).
+//! * `page_off_by_one` — page_filter.rs `prune_pages_in_one_row_group`: the last page of a row group takes
+//!   the verdict of the page before it -> VIOLATION after 454 cases (missing rows).
+//! * `limit_before_filter` — row_group_filter.rs `prune_by_limit`: every row group counts as fully matched
+//!   (LIMIT satisfied from row groups whose rows still have to pass the filter) -> VIOLATION after 33 cases.
+//! * `bloom_for_noteq` — pruning_predicate.rs: a `NotIn` literal guarantee is combined like `In` (bloom
+//!   filter consulted for `<>` / NOT IN) -> VIOLATION after 92 cases.
+//!
+//! Genuine finding (open, known_findings.json `pushdown+mask+predicate-cache+small-batch`, case
+//! regressions/C24/c24/sparse-page-mask-topk.json; two more shrunk cases next to it): with
+//! `pushdown_filters=true`, a row filter of >= 2 conjuncts (static ones, or a static one plus the TopK
+//! dynamic filter) and a batch size smaller than the data pages (e.g. 3 vs 5- or 17-row pages), the scan
+//! fails with `Parquet error: Invalid offset in sparse column chunk data: N, no matching page found`
+//! (parquet 59.2 push decoder: mask selection strategy + predicate cache over sparsely fetched pages);
+//! `force_filter_selections=true` or `max_predicate_cache_size=0` avoid it. The generator continues
+//! behind it via `known_signature` (pushdown && !force_filter_selections && cache != 0 && batch_size < 64
+//! && a predicate) — that region is counted in `known_excluded`, not explored.
 use crate::util::*;
 use datafusion::arrow::array::*;
 use datafusion::arrow::datatypes::{DataType, Field, Schema, SchemaRef};
@@ -591,7 +612,7 @@ fn opts_strategy() -> BoxedStrategy<Opts> {
         on(),
         on(),
     );
-    let c = (prop_oneof![1 => Just(1usize), 2 => Just(3usize), 2 => Just(17usize), 3 => Just(8192usize)], on(), prop::bool::weighted(0.6), prop_oneof![3 => Just(1usize), 1 => Just(2usize)], prop_oneof![1 => Just(0usize), 1 => Just(2usize), 3 => Just(20usize)]);
+    let c = (prop_oneof![1 => Just(1usize), 2 => Just(3usize), 2 => Just(17usize), 2 => Just(100usize), 3 => Just(8192usize)], on(), prop::bool::weighted(0.6), prop_oneof![3 => Just(1usize), 1 => Just(2usize)], prop_oneof![1 => Just(0usize), 1 => Just(2usize), 3 => Just(20usize)]);
     (a, b, c)
         .prop_map(|((pruning, page_index, bloom_read, pushdown, reorder, force_sel, pred_cache), (meta_hint, view_types, partitions, repartition, repart_min0, split_stats, sort_pushdown, dyn_filter), (batch_size, collect_stats, declare_order, workers, in_list_max))| Opts {
             pruning,
@@ -825,7 +846,7 @@ impl Property for C24 {
             .boxed()
     }
     fn budget(&self, tier: Tier) -> Budget {
-        Budget::new(tier.pick(1_200, 60_000), tier.pick(8, 16)).min_nontrivial(tier.pick(200, 8000)).case_timeout(90)
+        Budget::new(tier.pick(1_200, 40_000), tier.pick(8, 16)).min_nontrivial(tier.pick(200, 6000)).case_timeout(90)
     }
     fn rule(&self) -> String {
         "1-3 Parquet files (rowid = position in file) written under generated WriterProperties, sorted/clustered/random NULL-heavy data; \
@@ -841,12 +862,11 @@ impl Property for C24 {
         ]
     }
     fn known_signature(&self, case: &Case) -> Option<String> {
-        // open finding "sparse-page-mask-topk" (see known_findings.json): row filter evaluated with the
-        // mask strategy + predicate cache + a TopK dynamic filter + batches smaller than the input
+        // open finding "sparse-page-mask" (see known_findings.json): a pushed-down row filter evaluated
+        // with the mask selection strategy and the predicate cache while batches are smaller than the pages
         let o = &case.opts;
-        let q = &case.query;
-        if o.pushdown && !o.force_sel && o.pred_cache != Some(0) && o.dyn_filter && o.batch_size < 64 && q.pred.is_some() && !q.order.is_empty() && q.limit.map(|n| n > 0).unwrap_or(false) {
-            return Some("pushdown+mask+predicate-cache+topk-dynamic-filter+small-batch".into());
+        if o.pushdown && !o.force_sel && o.pred_cache != Some(0) && o.batch_size < 64 && case.query.pred.is_some() {
+            return Some("pushdown+mask+predicate-cache+small-batch".into());
         }
         None
     }
